@@ -23,6 +23,7 @@ Case(p) ==
   [pol |-> p,
    reject |-> HasDefect(p),
    ideal |-> IF HasDefect(p) THEN <<>> ELSE [i \in 1..Len(Events) |-> Decide(p, Events[i])],
+   ideal_x32 |-> IF HasDefect(p) \/ ~p.x86 THEN <<>> ELSE [i \in 1..Len(Events) |-> DecideX32Target(p, Events[i])],
    model |-> [err |-> c.err, le |-> Le,
               prog |-> [i \in 1..Len(c.insts) |-> OutInst(c.insts[i])]]]
 Header == [scope |-> Scope, w |-> W, x32bit |-> X32Bit, nsys |-> NSys, events |-> Events,
